@@ -45,12 +45,37 @@ def runAccumulate (dim : Int) (chunks : List Tensor) (bessel : Bool) :
     st := some (accumulate st c d)
   pure (st, store st bessel)
 
+/-- Pooled statistics per coefficient straight from the entries of the tensor whose `dim`-th
+coordinate is `i` (`coeffEntries`; no use of the model's `columns`). -/
 def specStats (dim : Int) (pooled : Tensor) (bessel : Bool) : Except String (List Rat × List Rat) := do
   let d ← normDimE dim pooled.shape.length
-  let cols := columns pooled d
+  let cols := (List.range (pooled.shape.getD d 1)).map (coeffEntries pooled d)
   pure (cols.map poolMean, cols.map (if bessel then poolVarBessel else poolVar))
 
-/-- case: {dim, bessel, eps, chunks: [tensor], pooled: tensor}. -/
+/-- The same from a list of chunks (each with its own rank): the pool of coefficient `i` is the
+concatenation of its entries in every chunk. -/
+def specStatsChunks (dim : Int) (chunks : List Tensor) (bessel : Bool) :
+    Except String (List Rat × List Rat) := do
+  match chunks with
+  | [] => pure ([], [])
+  | c0 :: _ =>
+    let d0 ← normDimE dim c0.shape.length
+    let X := c0.shape.getD d0 1
+    let cols ← (List.range X).mapM (fun i => do
+      let parts ← chunks.mapM (fun c => do
+        let d ← normDimE dim c.shape.length
+        pure (coeffEntries c d i))
+      pure parts.flatten)
+    pure (cols.map poolMean, cols.map (if bessel then poolVarBessel else poolVar))
+
+def accJ (st : Option Acc) : Json :=
+  match st with
+  | none => Json.null
+  | some a => objJ [("count", natJ a.count), ("sum", ratsJ a.sum), ("sumsq", ratsJ a.sumsq)]
+
+/-- case: {dim, pooled_dim?, bessel, eps, chunks: [tensor], pooled: tensor, mid?: k}.
+`mid = k`: additionally the buffers and `store` after the first `k` chunks ("accumulate after
+store").  `restart`: the buffers after a fresh start with the first chunk only. -/
 def c18Mvn : Handler := fun c => do
   let dim ← getInt c "dim"
   let bessel ← getBool c "bessel"
@@ -62,24 +87,48 @@ def c18Mvn : Handler := fun c => do
   let d ← normDimE pdim pooled.shape.length
   let (smean, svar) ← specStats pdim pooled bessel
   let X := pooled.shape.getD d 1
-  let accJ := match st with
-    | none => Json.null
-    | some a => objJ [("count", natJ a.count), ("sum", ratsJ a.sum), ("sumsq", ratsJ a.sumsq)]
+  let entries := (List.range X).map (coeffEntries pooled d)
+  let cols := columns pooled d
+  if cols.length ≠ entries.length ∨ !((cols.zip entries).all (fun (a, b) => a.isPerm b)) then
+    throw "model columns are not a rearrangement of the entries by coefficient"
+  let ownMean := entries.map poolMean
+  let ownVar := entries.map poolVar
+  let ownSd := ownVar.map sqrtRat
   -- forward with the input's own statistics
-  let ownSqrt := ((meanVarNorm pooled d none none (List.replicate X 0) eps).2.1).map sqrtRat
-  let (omean, ovar, oy) := meanVarNorm pooled d none none ownSqrt eps
+  let (omean, ovar, oy) := meanVarNorm pooled d none none ownSd eps
   let ownJ := objJ [("mean", ratsJ omean), ("var", ratsJ ovar), ("y", ratsJ oy.data)]
-  let mut out := [("acc", accJ), ("own", ownJ),
-    ("spec", objJ [("mean", ratsJ smean), ("var", ratsJ svar),
-                   ("own_mean", ratsJ ((columns pooled d).map poolMean)),
-                   ("own_var", ratsJ ((columns pooled d).map poolVar))])]
-  if omean ≠ (columns pooled d).map poolMean then throw "model own mean ≠ spec"
-  if ovar ≠ (columns pooled d).map poolVar then throw "model own variance ≠ spec"
+  if omean ≠ ownMean then throw "model own mean ≠ spec"
+  if ovar ≠ ownVar then throw "model own variance ≠ spec"
+  let ownSpec := mvnSpec pooled d ownMean ownSd eps
+  if oy.shape ≠ ownSpec.shape ∨ oy.data ≠ ownSpec.data then throw "model own forward ≠ formula"
+  let mut specJ := [("mean", ratsJ smean), ("var", ratsJ svar), ("own_mean", ratsJ ownMean),
+                    ("own_var", ratsJ ownVar), ("own_y", ratsJ ownSpec.data)]
+  let mut out := [("acc", accJ st), ("own", ownJ)]
+  match chunks with
+  | c0 :: _ =>
+    let d0 ← normDimE dim c0.shape.length
+    out := out ++ [("restart", accJ (some (accumulate none c0 d0)))]
+  | [] => pure ()
+  match (← getOptNat c "mid") with
+  | none => pure ()
+  | some k =>
+    let pre := chunks.take k
+    let (st1, stored1) ← runAccumulate dim pre bessel
+    let (m1, v1) ← specStatsChunks dim pre bessel
+    let sj ← match stored1 with
+      | none => pure Json.null
+      | some (m, v) =>
+        if m ≠ m1 then throw "model mid-history mean ≠ pooled mean of the prefix"
+        if v ≠ v1 then throw "model mid-history variance ≠ pooled variance of the prefix"
+        pure (objJ [("mean", ratsJ m), ("var", ratsJ v)])
+    out := out ++ [("mid", objJ [("acc", accJ st1), ("store", sj)])]
   match stored with
   | none => out := out ++ [("store", Json.null)]
   | some (m, v) =>
     if m ≠ smean then throw s!"model stored mean ≠ pooled mean"
     if v ≠ svar then throw s!"model stored variance ≠ pooled variance"
+    let (mc, vc) ← specStatsChunks dim chunks bessel
+    if mc ≠ smean ∨ vc ≠ svar then throw "pooled tensor and chunks disagree (harness)"
     let sd := v.map sqrtRat
     let (_, _, y) := meanVarNorm pooled d (some m) (some sd) [] eps
     -- mean stored, std absent: own std of the input centred with the stored mean
@@ -87,9 +136,17 @@ def c18Mvn : Handler := fun c => do
     let (_, _, yMean) := meanVarNorm pooled d (some m) none mSqrt eps
     -- std stored, mean absent
     let (_, _, yStd) := meanVarNorm pooled d none (some sd) [] eps
+    let ySpec := mvnSpec pooled d smean sd eps
+    let yMeanSpec := mvnSpec pooled d smean ownSd eps
+    let yStdSpec := mvnSpec pooled d ownMean sd eps
+    if y.shape ≠ ySpec.shape ∨ y.data ≠ ySpec.data then throw "model forward ≠ formula"
+    if yMean.data ≠ yMeanSpec.data then throw "model forward (mean only) ≠ formula"
+    if yStd.data ≠ yStdSpec.data then throw "model forward (std only) ≠ formula"
+    specJ := specJ ++ [("y", ratsJ ySpec.data), ("y_mean_only", ratsJ yMeanSpec.data),
+                       ("y_std_only", ratsJ yStdSpec.data)]
     out := out ++ [("store", objJ [("mean", ratsJ m), ("var", ratsJ v), ("y", ratsJ y.data),
       ("y_mean_only", ratsJ yMean.data), ("y_std_only", ratsJ yStd.data)])]
-  pure (objJ out)
+  pure (objJ (out ++ [("spec", objJ specJ)]))
 
 /-- case: {dim, bessel, groups: [{gid, files: [tensor] (in sorted-id order)}]}. -/
 def c18Cli : Handler := fun c => do
